@@ -358,9 +358,16 @@ class LDAPSession:
         elif self.state == SessionState.BEFORE_OPEN:
             self.state = SessionState.OPENED
 
+        self._validate_outgoing_message(msg)
         self._outgoing_buffer.extend(msg.pack(self._packing_options))
 
         return msg.message_id
+
+    def _validate_outgoing_message(
+        self,
+        msg: LDAPMessage,
+    ) -> None:
+        pass
 
 
 class LDAPClient(LDAPSession):
@@ -941,11 +948,16 @@ class LDAPServer(LDAPSession):
     ) -> int:
         msg_id = super()._send(msg)
 
-        if not isinstance(msg, UnbindRequest):
-            if msg_id in self._outstanding_requests:
-                if not isinstance(msg, (SearchResultEntry, SearchResultReference)):
-                    self._outstanding_requests.remove(msg_id)
-            else:
-                raise LDAPError(f"Message {msg} is a response to an unknown request")
+        if not isinstance(msg, (UnbindRequest, SearchResultEntry, SearchResultReference)):
+            self._outstanding_requests.remove(msg_id)
 
         return msg_id
+
+    def _validate_outgoing_message(
+        self,
+        msg: LDAPMessage,
+    ) -> None:
+        # Checked before anything is written to the outgoing buffer so that a
+        # refused response has no effect on the session.
+        if not isinstance(msg, UnbindRequest) and msg.message_id not in self._outstanding_requests:
+            raise LDAPError(f"Message {msg} is a response to an unknown request")
